@@ -222,3 +222,33 @@ Lemma before_fix_map_object_receiver :
   exists ms, gen_deepcopy 8 no_fix w_mapobj [bs "M"; bs "Object"] [] = Ok ms /\
              In (MObject (bs "M") [] (bs "Object") true) ms.
 Proof. eexists. split; [vm_compute; reflexivity|]. left. reflexivity. Qed.
+
+(* ---- known finding type_argument_with_containers: a bare type-parameter field can only be assigned ----
+
+   type Page[T any] struct { Item T } (no tag); type Labels map[string]string; type Root struct { L Page[Labels] }.
+   The hypothesis [wt] of copy_correct gives a type-parameter field a scalar value; with a map type as argument the
+   value behind Item is a map.  The repaired generator renders Page[T] from its origin (Item is assigned), so the copy
+   holds the SAME cell, and a write through that map of the copy changes the original. *)
+Definition w_tparg : pkg := mk_pkg false
+  [untagged "Page" (DStruct [bs "T"] [(bs "Item", FTParam (bs "T"))]);
+   untagged "Labels" (DMap (bs "string") (bs "string"));
+   tagged "Root" (DStruct [] [(bs "L", FNamed (bs "Page") [bs "Labels"])])].
+
+Definition w_tparg_heap : heap := [CMap [(1, 10)]%N].
+Definition w_tparg_value : value := VStruct [(bs "L", VStruct [(bs "Item", VMap (Some 0))])].
+
+Lemma type_argument_map_shared :
+  dom_b w_tparg = true /\
+  exists ms v',
+    gen_deepcopy 8 all_fixed w_tparg [bs "Labels"; bs "Page"; bs "Root"] [] = Ok ms /\
+    find_into ms (bs "Page") = Some [SAssign (bs "Item")] /\
+    exec_copy 4 w_tparg ms (bs "Root") w_tparg_value w_tparg_heap = Ok (v', w_tparg_heap) /\
+    snapshot w_tparg_heap v' = snapshot w_tparg_heap w_tparg_value /\
+    locs v' = [0] /\
+    snapshot (write w_tparg_heap 0 (CMap [])) w_tparg_value <> snapshot w_tparg_heap w_tparg_value.
+Proof.
+  split; [vm_compute; reflexivity|]. eexists. eexists.
+  split; [vm_compute; reflexivity|]. split; [vm_compute; reflexivity|]. split; [vm_compute; reflexivity|].
+  split; [vm_compute; reflexivity|]. split; [vm_compute; reflexivity|].
+  intros H. vm_compute in H. discriminate.
+Qed.
